@@ -185,6 +185,11 @@ class _InMemoryResult(Result):
       self, dna_fn: Callable[[], geno.DNA], group_id: str) -> Trial:
     """Appends a trial to the result."""
     with self._lock:
+      # A co-worker of the same group may have created a trial since the
+      # caller looked: workers of a group share the pending trial.
+      latest = self._latest_trial_per_group.get(group_id, None)
+      if latest is not None and latest.status == 'PENDING':
+        return latest
       if (self._max_num_trials is not None
           and self.next_trial_id() > self._max_num_trials):
         raise StopIteration()
